@@ -219,8 +219,9 @@ def component_grid(tier, out, stats):
             for k in range(n):
                 em.add(event.Source(path=(f"s{k}",)))
             mon = EventMonitor(em, data_width=dw, alignment=al)
-            reg_size = (n + dw - 1) // dw
-            aw = 1 + max(ceil_log2(reg_size), al)
+            # (the address width is not a constructor parameter of the event monitor: it is taken from the
+            #  published memory map, whose layout is C14's subject)
+            aw = mon.bus.memory_map.addr_width
             connect_ok(csr.Interface(addr_width=aw, data_width=dw), mon.bus, f"csr.EventMonitor(events={n}, dw={dw}, align={al}).bus", out, stats)
             m = Module()
             # the monitor's own source output feeds an event map of the next level
